@@ -114,6 +114,9 @@ def plan_o5m(case, conc, objs):
         a = st["a"]
         if a in ("reset", "skip"):
             steps.append(dict(st))
+        elif a == "fill":                      # FillerRun of the spec: n nodes with one new inline tag each
+            for i in range(st["n"]):
+                steps.append({"a": "obj", "i": i, "roles": [], "tags": ["inl"]})
         elif a == "bbox":
             steps.append({"a": "bbox", "box": conc.box})
             has_box = True
@@ -250,6 +253,9 @@ def features(case):
                     f.add("o5m skip between objects")
             elif a in ("bbox", "filets"):
                 f.add("o5m " + a)
+            elif a == "fill":
+                f.add("o5m bulk fill")
+                inserted += st["n"]
             elif a == "reset":
                 if last == "obj":
                     seen_reset_after_obj = True
